@@ -167,6 +167,10 @@ void ensure() {
 }
 
 // ---- socket helpers ---------------------------------------------------------------------------
+void close_if_open(int fd) {
+    if (fd >= 0 && ::fcntl(fd, F_GETFD) != -1) ::close(fd);
+}
+
 bool write_all(int fd, const std::uint8_t* p, std::size_t n) {
     while (n > 0) {
         const auto w = ::send(fd, p, n, MSG_NOSIGNAL);
@@ -292,11 +296,12 @@ std::string run_reader(const std::string& peer, const std::vector<std::uint8_t>&
     write_all(sv[1], wire.data(), wire.size());
     ::shutdown(sv[1], SHUT_WR);
     const auto st = guarded([&] { node->sessions_.receive_loop(p, session); });
-    if (st != "ok") {
-        // what std::terminate would have left behind: clean up by hand
-        if (!session->socket_closed.exchange(true)) ::close(sv[0]);
-    }
     unplant(p, session);
+    // Who closes the planted descriptor differs between trees (receive_loop itself, or ~Session with the last
+    // reference) and an escaping exception skips it altogether: drop the session first, then close only what
+    // is still open.
+    session.reset();
+    close_if_open(sv[0]);
     const auto back = drain(sv[1], 0);
     ::close(sv[1]);
     return st + " cm=" + hint + " r=" + replies(back, kit->second);
@@ -361,7 +366,7 @@ std::string run_control(const std::vector<std::uint8_t>& raw) {
     impl->listen_socket_ = kInvalidSocket;
     if (st != "ok") {
         g_accept_queue.clear();
-        ::close(sv[0]);   // accept_loop did not get to close it
+        close_if_open(sv[0]);   // accept_loop did not get to close it
     }
     const auto back = drain(sv[1], 0);
     ::close(sv[1]);
@@ -395,7 +400,7 @@ std::string run_handshake(const std::vector<std::uint8_t>& raw) {
     sm.listen_socket_ = network::SessionManager::INVALID_SOCKET_HANDLE;
     if (st != "ok") {
         g_accept_queue.clear();
-        ::close(sv[0]);
+        close_if_open(sv[0]);
     }
     const auto back = drain(sv[1], 50);
     // an accepted handshake started a real reader thread on our planted socket: it sees EOF; wait for it
